@@ -39,13 +39,16 @@ const KINDS: [(&str, &str, &str); 13] = [
     ("tmerc", "k=0.9996 rf=293.465 lon_0=9 a=6378249.145", "lon_0=9 ellps=6378249.145,293.465 k_0=0.9996"),
 ];
 
-const GLOBALS: [(&str, &str); 5] = [
+const GLOBALS: [(&str, &str); 6] = [
     ("", ""),
     ("ellps=intl", "ellps=intl"),
     ("zone=33 x=9", "zone=33 x=9"),
     // the renames apply to pipeline-level parameters too
     ("k=0.9992", "k_0=0.9992"),
     ("rf=298.3 a=6378245", "ellps=6378245,298.3"),
+    // a directional modifier at pipeline level reaches every step (and is exchanged under a pipeline-level inv),
+    // also when it is not the only pipeline-level parameter
+    ("omit_fwd ellps=intl", "omit_fwd ellps=intl"),
 ];
 
 #[derive(Clone, Debug)]
@@ -428,18 +431,19 @@ pub fn run(tier: Tier) -> Report {
     rep.assume("the shared operators mean the same in both syntaxes (only the translation is judged); the reference rendering puts globals before step-local values (last wins)");
     let wd = enter_private_workdir();
     let all: Vec<usize> = (0..KINDS.len()).collect();
-    let every = |o: &[usize]| o[3] < 6;
+    let plain_if_omit_global = |o: &[usize]| o[1] != 5 || (o[2] == 0 && o[3] == 0 && o[5] == 0);
+    let every = |o: &[usize]| o[3] < 6 && plain_if_omit_global(o);
     enumerate(&rep, &all, 1, "all^1", &every);
     match tier {
         Tier::Quick => {
             // o = [pipeline inv, globals, plus style, layout, explicit, modifier first]
-            enumerate(&rep, &all, 2, "all^2 (layouts 0,2,3,5; no pipeline-level parameters with layout 4)", &|o: &[usize]| o[3] < 6 && o[3] != 1 && (o[3] != 4 || o[1] == 0));
-            enumerate(&rep, &[1, 4], 3, "two^3 (no plus signs, layouts 0,3)", &|o: &[usize]| o[2] == 0 && (o[3] == 0 || o[3] == 3));
+            enumerate(&rep, &all, 2, "all^2 (layouts 0,2,3,5; no pipeline-level parameters with layout 4)", &|o: &[usize]| o[3] < 6 && o[3] != 1 && (o[3] != 4 || o[1] == 0) && plain_if_omit_global(o));
+            enumerate(&rep, &[1, 4], 3, "two^3 (no plus signs, layouts 0,3)", &|o: &[usize]| o[2] == 0 && (o[3] == 0 || o[3] == 3) && plain_if_omit_global(o));
         }
         Tier::Thorough => {
             enumerate(&rep, &all, 2, "all^2", &every);
-            enumerate(&rep, &[0, 1, 2, 4, 5, 11], 3, "six^3", &|o: &[usize]| o[3] < 6 && o[3] != 1);
-            enumerate(&rep, &[1, 4], 4, "two^4", &|o: &[usize]| o[3] < 6 && o[2] != 2);
+            enumerate(&rep, &[0, 1, 2, 4, 5, 11], 3, "six^3", &|o: &[usize]| o[3] < 6 && o[3] != 1 && plain_if_omit_global(o));
+            enumerate(&rep, &[1, 4], 4, "two^4", &|o: &[usize]| o[3] < 6 && o[2] != 2 && plain_if_omit_global(o));
         }
     }
     enumerate(&rep, &[0, 1, 4], 2, "three^2 (form feed, vertical tab, no-break space, em space between the tokens; no pipeline-level parameters)", &|o: &[usize]| o[3] >= 6 && o[1] == 0 && o[4] == 0);
